@@ -21,7 +21,7 @@ ASSUMPTIONS = ['Valid is my transcription of the documented rules (DESIGN C11); 
 
 
 def cases(rng, tier):
-    n = 1500 if tier == 'quick' else 30000
+    n = 15000 if tier == 'quick' else 300000
     out = []
     for i in range(n):
         a = G.gen_array(rng, depth=rng.choice([1, 2, 3, 4]), canonical_too=False,
